@@ -142,6 +142,7 @@ func runAction(t *T, action func(*T)) (invalid bool, skipped bool) {
 	defer func(draws int) {
 		if r := recover(); r != nil {
 			if _, ok := r.(invalidData); ok {
+				t.failOnError() // an action that has already failed is not merely inapplicable
 				invalid = true
 				skipped = t.draws == draws
 			} else {
